@@ -244,10 +244,23 @@ def _groups(rng, n, mode):
     else:
         ng = rng.randint(1, n)
     ng = max(1, min(ng, n))
-    if rng.random() < 0.5:
+    r = rng.random()
+    if r < 0.3:
         g = np.array(sorted(i % ng for i in range(n)), dtype="int16")
-    else:
+    elif r < 0.6:
         g = np.array([i % ng for i in range(n)], dtype="int16")
+    elif r < 0.8:
+        # unbalanced: ids drawn at random (a group may be large, small or have no member at all --
+        # all ids stay within 0..ng-1, which is what the contract asks for)
+        g = np.array([rng.randrange(ng) for _ in range(n)], dtype="int16")
+        if rng.random() < 0.5:
+            g = np.sort(g)
+    else:
+        # skewed: most observations in one group
+        big = rng.randrange(ng)
+        g = np.array([big if rng.random() < 0.7 else rng.randrange(ng) for _ in range(n)], dtype="int16")
+        if rng.random() < 0.5:
+            g = np.sort(g)
     return g, ng
 
 
